@@ -380,8 +380,8 @@ theorem stalled_write_released (v : Variant) (c : Cfg) (ops : List OpD) (i : Boo
     (stepD .armed v c s (.deadline i n)).2 = [.ret i true] ∧
     (pendingOf (getB (stepD .armed v c s (.deadline i n)).1.p i)).length = n + (getB s.p i).w.length ∧
     (getB (stepD .armed v c s (.deadline i n)).1.p i).nerr = (getB s.p i).nerr + 1 := by
-  have hdl : DlInv (runD .armed v c {} ops) := dlinv_runD v c ops {} (by intro j hj; cases j <;> simp [getB] at hj)
-  have hd := hdl i (by rw [hw]; simp)
+  have hdl : DlInv (runD .armed v c {} ops) := dlinv_runD v c ops {} dlinv_init
+  have hd := (hdl i).1 (by rw [hw]; simp)
   have hen : deadlineEnabled (runD .armed v c {} ops) i n = true := by simp [deadlineEnabled, hd, hw, hn]
   have hsk := write_error_skips_exactly_one c i (getB (runD .armed v c {} ops).p i) n hw hn
   have hlt : ¬ ((batch (getB (runD .armed v c {} ops).p i)).length ≤ n) := by omega
@@ -410,6 +410,41 @@ example :
      (getB s'.p false).nerr = 1 ∧ (getB s'.p false).pc = .writing ∧ batch (getB s'.p false) = [frame [2]] ∧
      getDl s' false = true) := by decide
 
+
+/-- **the deadline bookkeeping of `sendLoop` (fixed code), for every history** of pool steps, write errors, deadline
+    expiries and passing time: (1) every write happens with `armed` — whenever a sender is inside `pop` (waiting for a batch
+    or blocked in the write callback) its CURRENT connection carries a write deadline; (2) the bookkeeping variable
+    `writeDeadline` is honest — it is non-zero only if the current connection really has a deadline, in particular it is
+    zero on every newly dialled connection, so the first loop iteration on it arms one. -/
+theorem write_always_armed (v : Variant) (c : Cfg) (ops : List OpD) (i : Bool) :
+    ((getB (runD .armed v c {} ops).p i).pc ≠ .idle → getDl (runD .armed v c {} ops) i = true) ∧
+    (getBk (runD .armed v c {} ops) i ≠ .zero → getDl (runD .armed v c {} ops) i = true) :=
+  dlinv_runD v c ops {} dlinv_init i
+
+/-- a write error shortly after a deadline refresh, then the next write (on the newly dialled connection) -/
+def errorThenWrite : List OpD :=
+  [.base (.handle [1]), .base (.handle [2]), .base (.handle [3]), .base (.pop false), .base (.wres false (.err 1)), .base (.pop false)]
+
+/-- seeded variant C31-r3-2 (`Deadline.stale`: the write-error path does not reset `writeDeadline`, the reset after reconnect is
+    gone): after the write error the new connection inherits a `fresh` bookkeeping value, the loop top sees nothing to
+    refresh, and the next write runs on a connection WITHOUT a deadline — if that upstream stalls there is no move left -/
+example :
+    let s := runD .stale .signal c10 {} errorThenWrite
+    (getB s.p false).pc = .writing ∧ batch (getB s.p false) = [frame [3]] ∧ getBk s false = .fresh ∧ getDl s false = false ∧
+    stalledNext s false = none := by decide
+
+/-- … the stale value protects nothing until it has aged: only after `age` does a `pop` arm the connection again -/
+example :
+    let s := runD .stale .signal c10 {} [.base (.handle [1]), .base (.handle [2]), .base (.pop false),
+      .base (.wres false (.err 1)), .age false, .base (.pop false)]
+    (getB s.p false).pc = .writing ∧ getDl s false = true := by decide
+
+/-- fixed code, same history as `errorThenWrite`: the reconnect resets the bookkeeping, the loop top arms the new
+    connection, a stalled write is ended by its deadline -/
+example :
+    let s := runD .armed .signal c10 {} errorThenWrite
+    (getB s.p false).pc = .writing ∧ getBk s false = .fresh ∧ getDl s false = true ∧
+    stalledNext s false = some (.deadline false 0) := by decide
 
 /-- **reconnection reaches every upstream address.** Whatever the state of the round-robin position, among any
     `len(addrs)` consecutive reconnect attempts of a sender every address of its pool is dialled: a sender whose pool holds
